@@ -68,3 +68,11 @@ func vpure(f func() bool) bool { return f() }
 func vmaporder(k uint32) {}
 
 func vnote(l string) {}
+
+// vmerge runs library code merged (if-converted) in the engine: no path forking inside.
+func vmerge(f func()) { f() }
+
+func vconcreteInt(x int) int { return x }
+
+// vcheckEqInt checks x == k; the engine then treats x as the concrete value k.
+func vcheckEqInt(l string, x, k int) { vcheck(l, x == k) }
